@@ -146,6 +146,10 @@ pub struct Case {
     /// fuse position for fault runs (-1 = disarmed)
     pub fuse: i32,
     pub ops: Vec<[u8; 4]>,
+    /// op lines given by name in a case file ("op clear 0 0 0"): (op index, name). They are
+    /// resolved to code bytes against the op-weight table of (engine, prop) after loading, so
+    /// that saved cases stay valid when a weight table changes. Empty for generated cases.
+    pub named: Vec<(usize, String)>,
 }
 
 impl Case {
@@ -182,6 +186,7 @@ impl Case {
             mode: 0,
             fuse: -1,
             ops: vec![],
+            named: vec![],
         };
         for (ln, line) in t.lines().enumerate() {
             let line = line.trim();
@@ -211,6 +216,10 @@ impl Case {
                     }
                     let mut o = [0u8; 4];
                     for i in 0..4 {
+                        if i == 0 && rest[0].parse::<u8>().is_err() {
+                            c.named.push((c.ops.len(), rest[0].to_string()));
+                            continue;
+                        }
                         o[i] = rest[i].parse().map_err(|_| err())?;
                     }
                     c.ops.push(o);
@@ -233,7 +242,7 @@ impl Case {
                 }
             }
         }
-        Case { engine, prop, kind: h(0), cap: h(1), cap2: h(2), univ: h(3), mode: h(4), fuse: -1, ops }
+        Case { engine, prop, kind: h(0), cap: h(1), cap2: h(2), univ: h(3), mode: h(4), fuse: -1, ops, named: vec![] }
     }
 
     pub fn to_bytes(&self) -> Vec<u8> {
